@@ -43,7 +43,7 @@ static Task *g_cab_result; static Token g_freed_tok;
 #endif
 """
 EXTERN_COMMON = tp.EXTERN_COMMON
-GUARD = {('guarded_by', 'eventx_WorkThread_Data'): {'stop_flag': 'B->lock.held == 1'}}
+GUARD = {('guarded_by', 'eventx_WorkThread_Data'): {'stop_flag': 'B->lock.held == 1', 'undo_tasks_cabinet': 'B->lock.held == 1', 'undo_tasks_token_deque': 'B->lock.held == 1', 'doing_tasks_token': 'B->lock.held == 1', 'task_pool': 'B->lock.held == 1'}}
 SELF = '__CPROVER_requires(__CPROVER_is_fresh(self, sizeof(*self)) && __CPROVER_is_fresh(self->d_, sizeof(Data)))\n'
 Q_FRESH = '__CPROVER_requires(Q(self->d_).size < V_QMAX && __CPROVER_is_fresh(Q(self->d_).data, (Q(self->d_).size ? Q(self->d_).size : 1) * sizeof(Token)))\n'
 SPEC_Q = dict(GUARD)
